@@ -173,14 +173,32 @@ def check_virtual(spec, ctx):
             Iref = ref.rep(L - 1, Lh - 1) @ Iref
         ctx.close("represent_fine_thb" if trunc else "represent_fine_hb", R, Iref, rtol=0, atol=1e-11)
 
+    def q_rep_lv(trunc):
+        # represent_fine(lv=k): the basis of virtual level k (active functions of levels <= k, then the deactivated functions
+        # of level k) in terms of the tensor-product basis of level k; prolongated exactly to the finest level it must be V_k
+        for k in range(L):
+            R = ctx.sut(hs.represent_fine, lv=k, truncate=trunc, what="represent_fine(lv=%d, truncate=%s)" % (k, trunc))
+            R = R.toarray() if hasattr(R, "toarray") else np.asarray(R)
+            Vk = virtual_basis(ref, k, trunc, L)
+            n_k = int(np.prod(ref.ndofs(k)))
+            ctx.require("represent_fine_lv_shape", R.shape == (n_k, Vk.shape[1]),
+                        "represent_fine(lv=%d) has shape %r, expected %r" % (k, R.shape, (n_k, Vk.shape[1])))
+            ctx.close("represent_fine_lv_thb" if trunc else "represent_fine_lv_hb", ref.rep(k, L - 1) @ R, Vk, rtol=0, atol=1e-11,
+                      what="virtual level %d of %d" % (k, L))
+        if L >= 3:
+            ctx.flag("represent_fine_intermediate_level")
+
     def q_default():
         # default argument follows hs.truncate
         Pd = ctx.sut(hs.virtual_hierarchy_prolongators, what="virtual_hierarchy_prolongators()")
         Pe = hs.virtual_hierarchy_prolongators(truncate=spec["truncate"])
         for a, b in zip(Pd, Pe):
             ctx.close("virtual_default", a, b.toarray(), rtol=0, atol=0)
-    queries = [q_tp, lambda: q_virtual(False), lambda: q_virtual(True), lambda: q_rep(False), lambda: q_rep(True), q_default]
+    queries = [q_tp, lambda: q_virtual(False), lambda: q_virtual(True), lambda: q_rep(False), lambda: q_rep(True), q_default,
+               lambda: q_rep_lv(False), lambda: q_rep_lv(True)]
     order = [int(i) % len(queries) for i in (spec.get("order") or range(len(queries)))]
+    if "order" in spec and not any(i >= 6 for i in order):
+        order = order + [6, 7]          # (orders generated before these two queries existed)
     deferred = None     # a violation of the THB virtual prolongators (open finding) must not hide the other queries
     for i in order:
         try:
@@ -378,7 +396,7 @@ def strat_hsplinefunc(draw):
 @st.composite
 def _virtual_strat(draw):
     spec = draw(gh.history(dims=(1, 2), pmax=3, max_steps=4, disparities=(None, 1, 2), bdspecs_mode="none", containers=("set",)))
-    spec["order"] = draw(st.permutations(list(range(6))))
+    spec["order"] = draw(st.permutations(list(range(8))))
     return spec
 
 
